@@ -17,8 +17,10 @@ Proof. unfold gen_isEndOfLine, src_parse_isEndOfLine. bool_lia. Qed.
 
 Lemma gen_isSpaceEOL_matches_source (r : Z) : gen_isSpaceEOL r = src_parse_isSpaceEOL r.
 Proof.
-  unfold gen_isSpaceEOL, src_parse_isSpaceEOL.
-  now rewrite gen_isSpace_matches_source, gen_isEndOfLine_matches_source.
+  (* by value, not through the two lemmas above: the source may call isSpace / isEndOfLine or test the four
+     characters itself (seeded/harmless2/1) *)
+  unfold gen_isSpaceEOL, gen_isSpace, gen_isEndOfLine, src_parse_isSpaceEOL, src_parse_isSpace, src_parse_isEndOfLine.
+  bool_lia.
 Qed.
 
 Lemma gen_isLetterOrUnderscore_matches_source (r : Z) :
